@@ -7,6 +7,7 @@ import Mathlib.Algebra.Order.Field.Basic
 import Mathlib.Algebra.Order.Ring.Rat
 import Mathlib.Algebra.BigOperators.Group.List.Basic
 import Mathlib.Algebra.Order.BigOperators.Group.List
+import Mathlib.Algebra.Order.Group.MinMax
 import Mathlib.Tactic.Linarith
 import Mathlib.Tactic.FieldSimp
 import Mathlib.Tactic.Ring
@@ -519,5 +520,32 @@ theorem fractionOut_spends : ∀ (fuel : Nat) (cv : WProfile) (c : Cand) (q : Ra
       subst this
       rw [min_eq_left hSnn]
       exact ⟨by ring, hwf, fun bw hbw _ => hbw⟩
+
+end VL.Score
+
+namespace VL.Score
+open VL
+
+theorem totalW_addWeight (d : WProfile) (b : SBallot) (w : Rat) : totalW (addWeight d b w) = totalW d + w := by
+  unfold totalW
+  induction d with
+  | nil => simp [addWeight]
+  | cons p rest ih =>
+    obtain ⟨k, v⟩ := p
+    unfold addWeight
+    by_cases hk : k = b
+    · rw [if_pos hk]; simp only [List.map_cons, List.sum_cons]; ring
+    · rw [if_neg hk]; simp only [List.map_cons, List.sum_cons, ih]; ring
+
+theorem totalW_merge (cv : WProfile) (g : SBallot → SBallot) : ∀ (d : WProfile),
+    totalW (cv.foldl (fun d bw => addWeight d (g bw.1) bw.2) d) = totalW d + totalW cv := by
+  induction cv with
+  | nil => intro d; simp [totalW]
+  | cons p rest ih =>
+    intro d
+    simp only [List.foldl_cons]
+    rw [ih, totalW_addWeight]
+    unfold totalW
+    simp only [List.map_cons, List.sum_cons]; ring
 
 end VL.Score
